@@ -51,7 +51,8 @@ ASSUMPTIONS = [
     "unit normals, dist <= margin); argument-order asymmetry of mj_geomDistance in a touching pose is covered only after the counterfactual "
     "'ccd_tolerance set to a quarter of the certified positive distance -> right and equal in both orders' has succeeded; cylinder cap "
     "= penetrating pose outside the touching band with a cylinder axis parallel (5e-13) to a flat-face normal of the other geom AND the "
-    "counterfactual 'second geom tilted by 1e-6 rad -> mj_geomDistance within tol of its certified depth in both orders' has succeeded. "
+    "engine values are too shallow AND the counterfactual 'second geom tilted by +-1e-6 rad about two perpendicular axes -> mj_geomDistance "
+    "within tol of the certified depth in all four poses and both orders' has succeeded. "
     "Everything else is a VIOLATION",
     "contact positions are C13's subject; geom poses are read back from the engine",
 ]
@@ -306,26 +307,31 @@ def check_pose(P, S, obs, distmax, witness, final=True):
         P.count("poses_ccd-cylinder-cap-exactly-parallel-to-flat-face")
 
         def tilt_counterfactual():
-            # the defect needs EXACTLY axial support directions: tilting geom 1 (always on a free body) by 1e-6 rad about an axis
-            # perpendicular to the cylinder axis changes the true depth by < 1e-6*size, far below tol - confirmed when
-            # mj_geomDistance of the tilted pose is within tol of ITS certified depth in both orders
+            # the defect needs EXACTLY axial support directions and under-reports the depth (EPA leaves unconverged).  Confirmed when
+            # (i) both mj_geomDistance values of the pose are too SHALLOW (above the certified bracket), and (ii) tilting geom 1 (always
+            # on a free body) by +-1e-6 rad about two axes perpendicular to the cylinder axis - the true depth changes by < 1e-6*size,
+            # far below tol - gives, in all four tilted poses and both argument orders, a value within tol of that pose's certified depth
             if "tilt" not in cache:
-                ok = False
+                ok = all(g > hi + tol for g in (gdA, gdB))
                 qsave = np.array(S.d["qpos"]).copy()
                 try:
                     X = S.shape(1)
                     e = np.eye(3)[int(np.argmin(np.abs(cyl.axis)))]
-                    perp = np.cross(cyl.axis, e)
-                    perp /= np.linalg.norm(perp)
+                    p1 = np.cross(cyl.axis, e)
+                    p1 /= np.linalg.norm(p1)
+                    p2 = np.cross(cyl.axis, p1)
                     a = 1e-6
-                    S.set_geom_pose(1, X.pos, base.qmul(np.array([math.cos(a / 2), *(math.sin(a / 2) * perp)]), base.mat2quat(X.R)))
-                    S.d.forward()
-                    A2, B2 = S.shape(kA), S.shape(kB)
-                    cb2 = cx.penetration_certified(A2, B2, eps=0.1 * tol)
-                    f1, f2 = np.zeros(6), np.zeros(6)
-                    g1 = S.L.call("mj_geomDistance", S.m, S.d, S.gid[0], S.gid[1], 10.0 * scale, f1, ret="f64")
-                    g2 = S.L.call("mj_geomDistance", S.m, S.d, S.gid[1], S.gid[0], 10.0 * scale, f2, ret="f64")
-                    ok = cb2["certified"] and all(-cb2["upper"] - tol <= g <= -cb2["lower"] + tol for g in (g1, g2))
+                    for perp in (p1, -p1, p2, -p2):
+                        if not ok:
+                            break
+                        S.set_geom_pose(1, X.pos, base.qmul(np.array([math.cos(a / 2), *(math.sin(a / 2) * perp)]), base.mat2quat(X.R)))
+                        S.d.forward()
+                        A2, B2 = S.shape(kA), S.shape(kB)
+                        cb2 = cx.penetration_certified(A2, B2, eps=0.1 * tol)
+                        f1, f2 = np.zeros(6), np.zeros(6)
+                        g1 = S.L.call("mj_geomDistance", S.m, S.d, S.gid[0], S.gid[1], 10.0 * scale, f1, ret="f64")
+                        g2 = S.L.call("mj_geomDistance", S.m, S.d, S.gid[1], S.gid[0], 10.0 * scale, f2, ret="f64")
+                        ok = cb2["certified"] and all(-cb2["upper"] - tol <= g <= -cb2["lower"] + tol for g in (g1, g2))
                 finally:
                     S.d["qpos"][:] = qsave
                     S.d.forward()
